@@ -287,6 +287,19 @@ class IterNM(Hooks, NodeMixin):
         return "IterNM(%s)" % (self.name,)
 
 
+class ListNM(Hooks, NodeMixin, list):
+    """A node that is also a list of payload items (``class Section(NodeMixin, list)``): value equality, unhashable,
+    falsy while empty, iterable over its payload - and an instance of ``list`` for any type-based dispatch."""
+
+    def __init__(self, name, key=0):
+        list.__init__(self, ["item"] * (key % 2))
+        self.name = name
+        self.key = key
+
+    def __repr__(self):
+        return "ListNM(%s)" % (self.name,)
+
+
 class FalsyLM(Hooks, LightNodeMixin):
     """Always falsy, also as a parent that has children."""
 
@@ -356,7 +369,7 @@ class FalsyNode(Hooks, Node):
         return False
 
 
-FAMILIES = ("NM", "LM", "Node", "AnyNode", "MIX", "VALNM", "VALLM", "FALSY", "FALSYLM", "FALSYNMB", "FALSYANY", "FALSYNODE", "ITER")
+FAMILIES = ("NM", "LM", "Node", "AnyNode", "MIX", "VALNM", "VALLM", "FALSY", "FALSYLM", "FALSYNMB", "FALSYANY", "FALSYNODE", "ITER", "LIST")
 LOCKSTEP_PAIRS = {"NM": ("NM", "LM"), "VALNM": ("VALNM", "VALLM"), "FALSYNMB": ("FALSYNMB", "FALSYLM")}
 
 
@@ -379,6 +392,8 @@ def make_nodes(family, k):
         return [ValLM("n%d" % i, i % 2) for i in range(k)]
     if family == "ITER":
         return [IterNM("n%d" % i, i % 2) for i in range(k)]
+    if family == "LIST":
+        return [ListNM("n%d" % i, i % 2) for i in range(k)]
     if family == "FALSYLM":
         return [FalsyLM("n%d" % i, i % 2) for i in range(k)]
     if family == "FALSYNMB":
@@ -435,6 +450,10 @@ class Plan:
             # restricted re-entrancy: the pre hook at event index spec[1] detaches another child of its
             # parent argument (a bounded parent evicting its oldest child); it never raises
             self.evict_at = self.spec[1]
+        elif t == "admit":
+            # restricted re-entrancy: the _pre_attach hook at event index spec[1] first attaches another root node
+            # to its parent argument (a parent that gives every new child a title sibling); it never raises
+            self.evict_at = self.spec[1]
         elif t == "rehome":
             # restricted re-entrancy, group hooks: the _pre_detach_children hook at event index spec[1] moves the
             # first of the children it is told about below another node (an "archive"); it never raises
@@ -444,7 +463,7 @@ class Plan:
 
     def fires(self, i, kind, n):
         t = self.t
-        if t == "none" or t == "evict" or t == "rehome":
+        if t in ("none", "evict", "rehome", "admit"):
             return False
         if t == "persist":
             return kind == self.kind and (self.label is None or self.label == n)
@@ -507,6 +526,17 @@ class Rec:
             if victims:
                 self.evicted.append((i, victims[0]))
                 self.nodes[victims[0]].parent = None
+        elif self.plan.t == "admit" and i == self.plan.evict_at and kind == "pre_attach" and isinstance(al, int) and isinstance(nl, int):
+            now = snap if snap is not None else self.snapshot()
+            top = al
+            steps = 0
+            while now[top][0] is not None and steps <= len(now):
+                top = now[top][0]
+                steps += 1
+            guests = [x for x in range(len(now)) if now[x][0] is None and x != nl and x != top]
+            if guests:
+                self.evicted.append((i, guests[0]))
+                self.nodes[guests[0]].parent = self.nodes[al]
         elif self.plan.t == "rehome" and i == self.plan.evict_at and kind == "pre_detach_children" and isinstance(nl, int) and al and isinstance(al[0], int):
             now = snap if snap is not None else self.snapshot()
             victim = al[0]
@@ -522,8 +552,12 @@ class Rec:
                 self.evicted.append((i, victim, homes[-1]))
                 self.nodes[victim].parent = self.nodes[homes[-1]]
         elif snap is not None and isinstance(nl, int):
-            # a validating hook also reads derived attributes of its node (values must not be memoised from here)
+            # a validating / logging hook also reads derived attributes, of its node and of the nodes around it
+            # (nothing may be memoised from here: the forest is in the middle of an update)
             node.root, node.depth, node.height  # noqa: B018
+            if len(self.nodes) <= 12:
+                for other in self.nodes:
+                    other.path, other.is_leaf  # noqa: B018
         if self.plan.fires(i, kind, nl):
             self.faults.append((i, kind, nl))
             raise self.plan.exc("%s@%d" % (kind, i))
@@ -696,6 +730,8 @@ def mon_c02(ctx, ex):
     """Outcome class and post-state equal the reference model (fault-free)."""
     if ex.planspec[0] == "evict":
         return mon_c02_evict(ctx, ex)
+    if ex.planspec[0] == "admit":
+        return mon_c02_admit(ctx, ex)
     if ex.faults or ex.planspec[0] != "none":
         return True
     fam = base_family(ex.family)
@@ -759,6 +795,29 @@ def mon_c02_evict(ctx, ex):
     if ex.outcome != "returned" or ex.post != M.snap_of(st):
         ctx.violation("C02/effect/setparent/reentrant-hook", "model-effect", ex.case(), expected=_jsonable(M.snap_of(st)),
                       observed={"post": _jsonable(ex.post), "outcome": ex.outcome, "exc": ex.excrepr}, note="pre hook detached sibling %d at event %d" % (victim, at))
+        return False
+    return True
+
+
+def mon_c02_admit(ctx, ex):
+    """Parent assignment whose _pre_attach hook first attaches another root to the same new parent: the guest
+    comes before the node, which is appended last."""
+    if ex.call[0] != "setparent" or not ex.evicted or not isinstance(ex.call[2], int):
+        return True
+    fam = base_family(ex.family)
+    st = M.ch_of(ex.pre)
+    n, q = ex.call[1], ex.call[2]
+    at, guest = ex.evicted[0]
+    out0, _, _ = M.model_call(st, ex.call, fam)
+    if out0 != "ok":
+        return True
+    ctx.count("mon.C02.reentrant")
+    _, st, _ = M.model_call(st, ("setparent", n, None), fam)
+    _, st, _ = M.model_call(st, ("setparent", guest, q), fam)
+    _, st, _ = M.model_call(st, ("setparent", n, q), fam)
+    if ex.outcome != "returned" or ex.post != M.snap_of(st):
+        ctx.violation("C02/effect/setparent/reentrant-hook-admit", "model-effect", ex.case(), expected=_jsonable(M.snap_of(st)),
+                      observed={"post": _jsonable(ex.post), "outcome": ex.outcome, "exc": ex.excrepr}, note="pre_attach hook attached root %d to the new parent at event %d" % (guest, at))
         return False
     return True
 
@@ -873,7 +932,7 @@ def mon_c16(ctx, ex):
     sn = ex.snaps
     if sn and sn[0] is None:
         return True
-    if ex.planspec[0] == "evict":
+    if ex.planspec[0] in ("evict", "admit"):
         return mon_c16_observations(ctx, ex)
     ctx.count("mon.C16.automaton")
     faulted = {i for i, _, _ in ex.faults}
@@ -1055,7 +1114,7 @@ def all_calls(k, family, maxlen=None, rep=True, nonnodes=True, itkinds=("list",)
         for p in [None] + U:
             yield ("setparent", n, p)
         if nonnodes and base_family(family) != "LM":
-            for kind in ("object", "str", "zero"):
+            for kind in ("object", "str", "zero", "plainclass"):
                 yield ("setparent", n, ("nonnode", kind))
     for n in U:
         yield ("delchildren", n)
@@ -1069,7 +1128,9 @@ def all_calls(k, family, maxlen=None, rep=True, nonnodes=True, itkinds=("list",)
         if nonnodes and base_family(family) != "LM":
             others = [u for u in U if u != n]
             yield ("setchildren", n, (("nonnode", "object"),), "list")
+            yield ("setchildren", n, (("nonnode", "plainclass"),), "list")  # has 'parent' and 'children' attributes, is no tree node
             if others:
+                yield ("setchildren", n, (others[0], ("nonnode", "plainclass")), "list")
                 yield ("setchildren", n, (others[0], ("nonnode", "none")), "list")
                 yield ("setchildren", n, (("nonnode", "int"), others[0]), "tuple")
                 yield ("setchildren", n, (others[0], others[0], ("nonnode", "str")), "list")
